@@ -97,6 +97,12 @@ def snapshot(x):
         return ("dict", tuple((k, snapshot(v)) for k, v in sorted(x.items(), key=lambda kv: str(kv[0]))))
     if isinstance(x, float):
         return ("f", repr(x))
+    if hasattr(x, "tocoo") and hasattr(x, "nnz"):
+        # sparse matrix: format and every stored entry (explicitly stored zeros included)
+        if x.format in ("csr", "csc"):
+            return ("sp", x.format, x.shape, x.data.tobytes(), x.indices.tobytes(), x.indptr.tobytes())
+        c = x.tocoo()
+        return ("sp", x.format, x.shape, c.data.tobytes(), c.row.tobytes(), c.col.tobytes())
     return ("o", repr(x))
 
 
@@ -213,6 +219,14 @@ def thunks():
 
     reg("gromov_hausdorff_draw_sensitive", mgh_sensitive, ["CY6", "ST5", "CY8"], forms=("list", "int"))
     reg("gromov_hausdorff_larger_graphs", mgh_larger, ["GR34", "TR15", "CY14", "GR35"], forms=("list", "int"))
+    def mgh_sparse(P):
+        np.random.seed(11)
+        return [persim.gromov_hausdorff(P["SP_CSR0"], P["SP_CSC"]), persim.gromov_hausdorff(P["SP_LIL"], P["SP_CSR0"]),
+                persim.gromov_hausdorff([P["SP_CSR0"], P["SP_CSC"], P["SP_LIL"]])]
+
+    # sparse inputs, one of them a CSR matrix with explicitly stored zeros (they are not edges, and they are the
+    # caller's: they must still be stored after the call)
+    reg("gromov_hausdorff_sparse", mgh_sparse, ["SP_CSR0", "SP_CSC", "SP_LIL"], forms=("list", "int"))
     reg("gromov_hausdorff_pair", mgh_pair, ["G1", "G2"], forms=("list", "int"))
     reg("gromov_hausdorff_collection", mgh_coll, ["G1", "G2", "G3"], forms=("list", "int"))
     reg("gromov_hausdorff_order", mgh_order, ["G1", "G2", "order"], forms=("list", "int"))
@@ -512,6 +526,18 @@ def _approx(D):
     return PersLandscapeApprox(dgms=[np.array(D, dtype=float)], hom_deg=0, num_steps=11)
 
 
+def _csr_with_zeros(A):
+    """Upper-triangular CSR adjacency with the non-edges (0, 2) and (1, 3) explicitly stored as zeros."""
+    import scipy.sparse as sps
+
+    A = np.triu(np.array(A), 1)
+    r, c = np.nonzero(A)
+    rows = np.concatenate([r, [0, 1]])
+    cols = np.concatenate([c, [2, 3]])
+    data = np.concatenate([np.ones(len(r)), [0.0, 0.0]])
+    return sps.csr_matrix((data, (rows, cols)), shape=A.shape)
+
+
 def make_pool(f, variant=0):
     """Shared argument objects; diagrams in container form f (graphs: list or int array)."""
     gf = "list" if f == "list" else "int"
@@ -524,6 +550,8 @@ def make_pool(f, variant=0):
         "G1": form(G1, gf), "G2": form(G2, gf), "G3": form(G3, gf),
         "CY6": form(cycle(6), gf), "CY8": form(cycle(8), gf), "ST5": form(star(5), gf),
         "GR34": form(grid_graph(3, 4), gf), "GR35": form(grid_graph(3, 5), gf), "TR15": form(binary_tree(15), gf), "CY14": form(cycle(14), gf),
+        "SP_CSR0": _csr_with_zeros(cycle(6)), "SP_CSC": __import__("scipy.sparse").sparse.csc_matrix(np.array(star(5))),
+        "SP_LIL": __import__("scipy.sparse").sparse.lil_matrix(np.array(G1)),
         "order": np.array([1.0, 1.0]), "order0": np.array([0.0, 2.0]), "coeffs": [2.0, -1.0], "labels": ["first", "second"], "labels1": ["only"], "sigma_hc": np.array([[0.01, 0.0096], [0.0096, 0.01]]), "ax_color": np.array([0.1, 0.2, 0.3]),
         "VALS": form([[0, 1, 2, 1, 0], [0, 0, 1, 0, 0]], "f64" if f == "list" else f),
         "CP": [[[0.0, 0.0], [1.0, 1.0], [2.5, -0.5], [4.0, 0.0]], [[1.0, 0.0], [2.0, 1.0], [3.0, 0.0]]],
